@@ -947,6 +947,33 @@ func registeredIn(c *Ctx, v ssa.Value, depth int) []string {
 		})
 	case *ssa.Extract:
 		return registeredIn(c, x.Tuple, depth)
+	case *ssa.ChangeType:
+		return registeredIn(c, x.X, depth) // chan T handed on as <-chan T
+	case *ssa.Parameter:
+		// a waiting helper: the channel is what the library callers hand in
+		fn := x.Parent()
+		if depth > 1 || fn == nil {
+			return nil
+		}
+		idx := -1
+		for i, p := range fn.Params {
+			if p == x {
+				idx = i
+			}
+		}
+		for _, e := range ir.Callers(c.G, fn) {
+			if e.Site == nil || !c.P.IsLib(e.Caller.Func) {
+				continue
+			}
+			args := e.Site.Common().Args
+			off := 0
+			if e.Site.Common().IsInvoke() {
+				off = 1
+			}
+			if idx-off >= 0 && idx-off < len(args) {
+				out = append(out, registeredIn(c, unspill(args[idx-off]), depth+1)...)
+			}
+		}
 	}
 	return out
 }
